@@ -35,8 +35,8 @@ TRUST = [
 ]
 
 NS = [1, 2, 3, 5]
-DDM_MENU = [(2.0, 3.0), (1.0, 1.0), (1.0, 2.0), (0.5, 1.0), (2.0, 2.0), (0.0, 1.0), (0.5, 0.75), (3.0, 2.0)]
-EDDM_MENU = [(0.95, 0.9), (1.0, 1.0), (1.0, 0.5), (0.75, 0.5), (1.0, 0.9), (0.5, 0.25)]
+DDM_MENU = [(2.0, 3.0), (1.0, 1.0), (1.0, 2.0), (0.5, 1.0), (2.0, 2.0), (0.0, 1.0), (0.5, 0.75), (3.0, 2.0), (0.5, 0.0)]   # scale 0 is legal (p+s above the minimum at all)
+EDDM_MENU = [(0.95, 0.9), (1.0, 1.0), (1.0, 0.5), (0.75, 0.5), (1.0, 0.9), (0.5, 0.25), (0.5, 0.0)]      # threshold 0 is legal (a positive ratio never reaches it)
 # incl. warning level stricter than the drift level (legal: the drift test comes first, a warning is then impossible)
 STEPD_MENU = [(0.05, 0.003), (0.5, 0.25), (0.25, 0.05), (1.0, 0.5), (0.05, 0.0), (0.0, 0.05), (0.003, 0.25), (0.25, 0.5),
               (0.6, 0.003), (0.7, 0.6), (0.95, 0.75)]     # levels above 1/2 (legal; the suite itself uses 0.6 / 0.7): negative critical values
